@@ -254,6 +254,9 @@ def plan(pid, tier):
     P['C12'] = lambda: rc_jobs('h_header', 'c12', 16, 2500 if q else 60000)
     P['C13'] = lambda: (sweep_jobs('h_args', 'c13_grid', 4) + rc_jobs('h_args', 'c13_grid_rc', 2, 1500 if q else 30000)
                         + sweep_jobs('h_args', 'c13_box', 6 if q else 16) + rc_jobs('h_args', 'c13_box_rc', 4, 3000 if q else 60000))
+    P['C14'] = lambda: (rc_jobs('h_state', 'c14', 8, 400 if q else 6000) + sweep_jobs('h_state', 'c14_exhaustive', 8))
+    P['C15'] = lambda: rc_jobs('h_state', 'c15', 16, 2500 if q else 40000)
+    P['C16'] = lambda: (rc_jobs('h_state', 'c16', 14, 1200 if q else 20000) + sweep_jobs('h_state', 'c16_pairs', 2))
     P['C20'] = lambda: rc_jobs('h_codec', 'c20', 16, 1500 if q else 40000)
     if pid not in P:
         return None
@@ -274,6 +277,9 @@ RULES = {
     'C11': 'fragment from encode (all back ends, both checksum types), optional asymmetric overwrite of fields that read the same both ways, optional payload bit flip; twin = field-wise byte-swapped header with swapped CRC. Oracle: metadata(twin) == metadata(native) field by field, equal return codes and header verdicts. Non-trivial: CRC32 fragment with corrupted payload.',
     'C12': 'validator instance x producer instance (same, other shape, other back end) x fragment x one edit (index boundary values, back-end id 0..255, back-end version, library version, opposite-endian twin, payload bit, stale CRC, stored mismatch flag), re-sealed where the field comparison must decide. Oracle: independent validity predicate for is_invalid_fragment and for verify_stripe_metadata. Non-trivial: re-sealed single-field edit.',
     'C13': 'argument grid: 16 public entry points x every argument position x {valid, NULL, destroyed / never-issued / -1 / 0 / INT_MAX / INT_MIN descriptor, fragment counts INT_MIN,-1,0,k-1, fragment lengths 0,1,79, destinations -1,k+m,INT_MAX,INT_MIN, back-end ids 9,100,INT_MAX,-1}: all single substitutions, all combinations of >=2 NULL pointers (also with a dead descriptor), never-issued descriptor x every other bad value, on 4 configurations, plus generated combinations; LeakSanitizer recoverable check after every case. Configuration box: back-end id 0..8 x k,m in -1..33 x hd 0..7 x w in {-1,0,4,7,8,16,32,64} (columns + boundary sample in quick, full in thorough) plus generated points: unsupported shape -> refused by every back end; anything accepted must survive encode(0,1,min+1)/decode complete and with tolerance-many erasures/reconstruct/size queries/fragments_needed/destroy. Non-trivial: bad argument not in first position or combined (grid); within 1 of an acceptance boundary (box).',
+    'C14': 'histories over <=4 slots of create (5 back ends, many shapes), failing create (7 kinds), destroy, destroy of dead descriptors, use (encode/decode/reconstruct vs reference), probe of 12 entry points with a dead descriptor, and presets of the exported descriptor counter to INT_MAX-3..INT_MAX; after EVERY step a behavioural scan of the registry (size query on every descriptor ever seen +-2, 1..8 and INT_MAX-8..INT_MAX after a preset) must equal the model and every live instance must round-trip; plus all sequences over a 12-symbol alphabet to depth 5 (quick) / 6 (thorough). Non-trivial: two live instances of one back end at some point and a non-LIFO destroy or a counter wrap.',
+    'C15': 'histories mixing encode/decode/reconstruct/metadata/validation/failing calls/other instances/encode on a fresh thread; at the end every kept stripe is decoded, reconstructed and re-encoded with all inputs (data, every fragment, the pointer array) on PROT_READ pages flush against PROT_NONE pages (end- or start-flush, aligned and unaligned); every encode output must equal the independent serializer (a pure function of configuration and data). Non-trivial: same (configuration, data) encoded at two points of the history and a rebuild happened.',
+    'C16': 'histories (<=300 steps) mixing valid calls with cleanup, beyond-tolerance/duplicated/insufficient sets, damaged headers, invalid arguments, failing creates and dead-descriptor probes; ASan reports double free / use-after-free at once, LeakSanitizer recoverable check after destroying all instances at the end of each history; plus one encode/decode/cleanup/destroy + leak check per shape. Non-trivial: at least one failing call and one successful rebuild in the history.',
     'C20': 'rapidcheck-generated (configuration with CRC32, data, presented multiset, damaged subset: payload bit flips, re-sealed header field edits, unsealed header damage), decode with force=1. Non-trivial: at least one damaged DATA fragment.',
 }
 LEVELS = {}
@@ -340,6 +346,8 @@ for _m in ['c06', 'c06_xor_sweep', 'c06_rs_sweep']:
     MODE_HARNESS[_m] = ('h_needed', 'asan')
 for _m in ['c13_grid', 'c13_grid_rc', 'c13_box', 'c13_box_rc']:
     MODE_HARNESS[_m] = ('h_args', 'asan')
+for _m in ['c14', 'c14_exhaustive', 'c15', 'c16', 'c16_pairs']:
+    MODE_HARNESS[_m] = ('h_state', 'asan')
 for _m in ['c07', 'c07_sweep', 'c08', 'c08_sweep', 'c04_matrix', 'c04_parity', 'c05_tables', 'c05_encode', 'c05_unsupported']:
     MODE_HARNESS[_m] = ('h_format', 'asan')
 for _m in ['c05_decode_sweep', 'c01', 'c01_xor_sweep', 'c01_rs_sweep', 'c01_isa_sweep', 'c02', 'c02_subsets', 'c02_band', 'c03', 'c03_xor_sweep', 'c03_rs_sweep', 'c20']:
